@@ -565,13 +565,10 @@ def gssvx_case(rng, prec, quick, kind='mixed', nmax=None):
     elif sc < 0.5: c['cscale'] = rng.choice([8, 20, 30])
     elif sc < 0.7: c['rscale'] = rng.choice([8, 20]); c['cscale'] = rng.choice([8, 20])
     c['trans'] = rng.choice([0, 1, 2]); c['stype'] = rng.choice(['nc', 'nr'])
-    if prec in 'cz' and c['stype'] == 'nr' and c['trans'] == 2 and rng.random() < 0.8:
-        c['stype'] = 'nc'          # complex + row-wise + CONJ is a known finding: keep only a few of those
     c['equil'] = rng.choice([1, 1, 0])
     c['nrhs'] = rng.choice([0, 1, 1, 3])
     if rng.random() < 0.5 and c['nrhs'] > 0:
         c['factored'] = 1; c['trans2'] = rng.choice([0, 1, 2])
-        if prec in 'cz' and c['stype'] == 'nr' and c['trans2'] == 2 and rng.random() < 0.8: c['trans2'] = 1
     if rng.random() < 0.3: c['ldpad'] = 2; c['ldxpad'] = rng.choice([0, 3])
     c['np'] = rng.choice([1, 2, 4, 4])
     c['ord'] = rng.choice([0, 1, 2, 3])
@@ -582,7 +579,7 @@ def gssvx_case(rng, prec, quick, kind='mixed', nmax=None):
         c['pmode'] = rng.choice([1, 2]); c['pert'] = rng.randrange(1, 1 << 30)
     return c
 
-X_COUNTERS = ('nrhs', 'premised', 'rcond_judged', 'pipe_takes', 'thr_panels')
+X_COUNTERS = ('tight_judged', 'nrhs', 'premised', 'rcond_judged', 'pipe_takes', 'thr_panels')
 
 def cov_equed(ctx, recs):
     eq = collections.Counter(); combos = set(); fact = 0; nonnat = 0
@@ -607,10 +604,11 @@ def gen_c07(ctx):
 PROPS['C07'] = dict(gen=gen_c07, relevant=('C07|', 'C11|B-', 'C11|A-', 'C02|reconstruction'), counters=X_COUNTERS, nontrivial=nontrivial_x, batch=25, coverage_extra=cov_equed,
                     rule='expert-driver calls over trans x storage x {DOFACT, EQUILIBRATE, then FACTORED with a new B and another trans} x badly scaled inputs (powers of two) '
                     'x 4 precisions x nrhs x nprocs; matrices: sparse families and dense matrices with prescribed singular values; distinct = sha1(case); non-trivial = n>=3 and a solution was returned; '
-                    'oracle: extended-precision componentwise backward error of the returned X for the ORIGINAL system <= 4(n+1)u whenever kappa*growth*n*u <= 1e-3 (kappa from an explicit extended-precision inverse), '
-                    'A_out/B_out equal the inputs scaled by the reported R/C, X padding untouched',
-                    floors={'premised': 500, 'factored_reuse_calls': 200},
-                    assumptions=['outside the premise kappa*growth*n*u <= 1e-3 only structure/NaN checks are applied to X'])
+                    'oracle: extended-precision componentwise backward error of the returned X for the ORIGINAL system <= 4(n+1)u whenever kappa*growth*n*u <= 1e-3 (kappa from an explicit extended-precision inverse) '
+                    'and Skeel\'s condition cond(A^-1)*sigma(A,x)*(n+1)*u <= 0.1 holds in the equilibrated system (refinement cannot reach componentwise u otherwise); in every case the unrefined bound '
+                    '|b - op(A)x| <= 8*gamma(3n) |L||U||x| of C01, evaluated in the equilibrated system with the returned factors; A_out/B_out equal the inputs scaled by the reported R/C, X padding untouched',
+                    floors={'premised': 500, 'factored_reuse_calls': 200, 'tight_judged': 500},
+                    assumptions=['outside the premises only the unrefined LU bound, structure and NaN checks are applied to X'])
 
 def gen_c12(ctx):
     rng = ctx.rng
@@ -760,15 +758,7 @@ def gen_c19(ctx):
                 if rng.random() < 0.5: c['xzero'] = rng.choice([1, 1, 2, 2, 3, 4])
                 if rng.random() < 0.2: c['yzero'] = 1
                 if sub == 'gemv':
-                    # the side the routine scatters to / gathers from gets a non-unit stride only rarely (known finding)
                     c['incx'] = rng.choice([1, 1, 1, 2, -1, -3]); c['incy'] = rng.choice([1, 1, 1, 2, -1, -3])
-                    if rng.random() < 0.93:
-                        if c['trans'] == 'N': c['incy'] = 1
-                        else: c['incx'] = 1
-                    # the routine implements only unit stride on the side it scatters to / gathers from
-                    bad = (c['trans'] == 'N' and c['incy'] != 1) or (c['trans'] != 'N' and c['incx'] != 1)
-                    if bad and c['alpha'] != 0:
-                        meta['per_process'] = True; c['stride_class'] = 'unsupported'
                 else:
                     c['ncolb'] = rng.choice([1, 2, 3])
             if sub == 'convert' or sub == 'langs':
